@@ -158,7 +158,10 @@ theorem C19_limits_step (s : St) (hinv : LimitsInv s) (op : Op) :
     · intro m' hm; exact Nat.le_trans ha.1 (hinv.2.1 m' (by rw [← ha.2]; exact hm))
     · intro m' hm h'; exact Nat.le_trans (hi h').1 (hinv.2.2 m' (by rw [← ha.2]; exact hm) h')
   | pub w st => exact ⟨hinv, rfl⟩
-  | unpub w => exact ⟨hinv, rfl⟩
+  | unpub w =>
+    have e : applyOp s (Op.unpub w) = removePub s w := rfl
+    rw [e]
+    rcases removePub_cases s w with h | ⟨p, o, h⟩ <;> rw [h] <;> exact ⟨hinv, rfl⟩
   | rejStatus => exact ⟨hinv, rfl⟩
 
 /-- C19 (limits, partial: max_samples and max_samples_per_instance; max_instances is covered by the
